@@ -1,5 +1,2 @@
-import Arp.Model.Arith
-import Arp.Spec.Ops
-namespace Arp.C08
-theorem smoke : (1:Nat) + 1 = 2 := rfl
-end Arp.C08
+import Arp.Props.C08Load
+/-! # C08 — integer conversions (loads in `C08Load.lean`, `to_i64` in `C08ToI64.lean`) -/
